@@ -53,9 +53,12 @@ int main(void)
             GPString s = gp_str_new(gp_heap, 4, ""); gp_str_copy(&s, a, al);
             GPString r = gp_str_new(gp_heap, 1, "");
             unlink(path);
+            /* the destination of a read holds something already: reading replaces it, whatever the file's size */
+            gp_str_copy(&r, "stale destination contents", 26);
             int w = gp_str_file(&s, path, "write"); int rr = gp_str_file(&r, path, "read");
             printf("w=%d r=%d ", w, rr); vp_puthex(r, gp_str_length(r));
             gp_str_copy(&s, b, bl);
+            gp_str_copy(&r, "stale destination contents, longer than before", 46);
             int ap = gp_str_file(&s, path, "append"); rr = gp_str_file(&r, path, "read");
             printf(" a=%d r=%d ", ap, rr); vp_puthex(r, gp_str_length(r)); puts("");
             gp_str_delete(s); gp_str_delete(r); free(a); free(b);
